@@ -266,7 +266,12 @@ fn ask_schema(
                 fields.push(ask_schema(&inner_schema, definitions)?);
             }
 
-            Ok(UplcData::constr(ix.try_into().unwrap(), fields))
+            // The alternatives of a type are not necessarily listed in the order of their
+            // indices (e.g. with @tag): the constructor is the one the schema declares.
+            Ok(UplcData::constr(
+                constructors[ix].annotated.index.try_into().unwrap(),
+                fields,
+            ))
         }
 
         _ => unimplemented!(
